@@ -58,6 +58,20 @@ def gen(tier):
                                 scs.append({"flavor": fl, "mode": mode,
                                             "server": {"starttls_offered": offered, "starttls_reply": reply, "cert": cert, "implicit_tls": mode == "wrapper", "caps_before": cb, "caps_after": ca},
                                             "client": {"add_root": root, "accept_invalid_certs": aic, "accept_invalid_hostnames": aih, "creds": creds}})
+    if tier == "quick":
+        # building the client's TLS parameters costs ~90 ms of serialised work per scenario (the system
+        # certificate store is loaded under a lock): the quick tier keeps every (mode, server behaviour,
+        # certificate) cell for the sync client and a third of the tokio ones
+        keep = []
+        for k, s_ in enumerate(scs):
+            c = s_["client"]
+            plain = c["add_root"] and not c["accept_invalid_certs"] and not c["accept_invalid_hostnames"]
+            if s_["flavor"] == "sync":
+                if s_["server"]["cert"] == "good" or c["creds"]:
+                    keep.append(s_)
+            elif plain or (k % 3 == 0 and c["creds"]):
+                keep.append(s_)
+        scs = keep
     for i, s in enumerate(scs):
         s["id"] = i
     return scs
